@@ -215,6 +215,7 @@ _mode = st.sampled_from([0, 1, 2])
 
 class PurityMachine(RuleBasedStateMachine):
     _verif_part = None
+    _first = None
 
     def __init__(self):
         super().__init__()
@@ -236,6 +237,8 @@ class PurityMachine(RuleBasedStateMachine):
             apply_step(self.state, step, self.trace)
         except Violation as v:
             v.case = {"steps": list(self.trace), "before": self.before}
+            if type(self)._first is None:
+                type(self)._first = {"bucket": v.bucket, "msg": v.msg, "case": v.case}
             raise
 
     def _probe_class(self, spec):
